@@ -134,6 +134,14 @@ class Run(object):
         for distinctness; nontrivial is the outcome of the property specific
         rule; sample (jsonable) may be kept as an example."""
         self.evaluations += 1
+        pf = os.environ.get("VERIF_PROGRESS")
+        if pf:
+            try:
+                with open(pf, "w") as f:
+                    json.dump({"evaluation": self.evaluations, "sample": jsonable(sample),
+                               "descriptor": repr(descriptor)[:300]}, f)
+            except Exception:
+                pass
         if nontrivial and descriptor is not None:
             self.nontrivial.add(hashlib.sha256(
                 repr(descriptor).encode()).hexdigest()[:20])
